@@ -105,6 +105,7 @@ static int inv(const struct iauth_request *r, const struct iauth_xquery_client *
     if (fl >> IAUTH_NUM_FLAGS) return 0;
     if ((fl & GOTMASK) != g->got) return 0;
     if (((fl & FLAG(IAUTH_SOFT_DONE)) != 0) != (g->soft_done != 0)) return 0;
+    if (((fl & FLAG(IAUTH_TIMED_OUT)) != 0) != (g->timed_out != 0)) return 0;
     if (r->hostname[0] != '\0' && !(fl & FLAG(IAUTH_GOT_HOSTNAME))) return 0;
     if (r->auth_username[0] != '\0' && !(fl & FLAG(IAUTH_GOT_IDENT))) return 0;
     if ((fl & FLAG(IAUTH_GOT_HURRY_UP)) && (iauth_flags.bits[0] & ~fl)) return 0;
@@ -128,7 +129,12 @@ static int inv(const struct iauth_request *r, const struct iauth_xquery_client *
     if (g->has_pw && !(fl & FLAG(IAUTH_GOT_PASSWORD))) return 0;
     /* hold counters say exactly what is pending */
     if (r->holds != ((g->hidden_only && !g->has_account) ? 1 : 0)) return 0;
-    if (r->soft_holds != ((g->awaited != 0 && !g->timed_out) ? 1 : 0)) return 0;
+    /* one soft hold while any service is awaited; once the timeout has expired the counter
+     * was zeroed behind the module's back, so it may lag by one - and no longer matters */
+    if (!g->timed_out) {
+        if (r->soft_holds != (g->awaited != 0 ? 1 : 0)) return 0;
+    } else if (r->soft_holds != (g->awaited != 0 ? 1 : 0) && r->soft_holds != (g->awaited != 0 ? 0 : -1))
+        return 0;
     /* timer */
     if (g->has_timer) {
         const struct vp_event *ev = (const struct vp_event *)r->timeout;
@@ -138,7 +144,7 @@ static int inv(const struct iauth_request *r, const struct iauth_xquery_client *
         return 0;
     /* no client whose conditions are complete is still waiting (C03) */
     complete = (r->holds == 0) && !(iauth_flags.bits[0] & ~fl);
-    if (complete && r->soft_holds == 0) return 0;
+    if (complete && (r->soft_holds < 1 || g->timed_out)) return 0;
     return 1;
 }
 
@@ -396,4 +402,6 @@ static int same_snap(const struct snap *s, unsigned j)
     return memcmp(&tmp, &s->req, sizeof(tmp)) == 0 && memcmp(CL[j], &s->cli, sizeof(s->cli)) == 0;
 }
 
+#ifndef VP_NO_EVENTS
 #include "C_step_events.h"
+#endif
